@@ -42,6 +42,44 @@ Proof.
   intros [k e] Hin. cbn. now rewrite (Hw _ _ Hin).
 Qed.
 
+(* ---- own_heads: the other log's heads looked up among the log's own entries ---- *)
+Lemma own_heads_fold_In (ents src : omap) : forall acc k v,
+  In (k, v) (fold_left (fun m kv => match oget ents (fst kv) with Some own => oset m (fst kv) own | None => m end) src acc) ->
+  NoDup (okeys acc) -> In (k, v) acc \/ oget ents k = Some v.
+Proof.
+  induction src as [|[k0 v0] src IH]; intros acc k v H ND; cbn [fold_left fst] in H; [auto|].
+  destruct (oget ents k0) as [own|] eqn:G.
+  - destruct (IH _ _ _ H (NoDup_okeys_oset _ _ _ ND)) as [Hin|Hg]; [|auto].
+    apply In_oset in Hin; auto. destruct Hin as [[-> ->]|[_ Hin]]; auto.
+  - eauto.
+Qed.
+
+(* whatever the other log claims as heads: every candidate is one of the log's own entries *)
+Lemma own_heads_In ents src k v : In (k, v) (own_heads ents src) -> oget ents k = Some v.
+Proof.
+  intros H. destruct (own_heads_fold_In ents src [] k v H (NoDup_nil _)) as [[]|Hg]. exact Hg.
+Qed.
+
+(* for a source whose heads are entries the log holds (unchanged objects), nothing changes *)
+Lemma own_heads_fold_id (ents src : omap) : forall acc,
+  NoDup (okeys (acc ++ src)) -> (forall k v, In (k, v) src -> oget ents k = Some v) ->
+  fold_left (fun m kv => match oget ents (fst kv) with Some own => oset m (fst kv) own | None => m end) src acc = acc ++ src.
+Proof.
+  induction src as [|[k0 v0] src IH]; intros acc ND Hg; cbn [fold_left fst]; [now rewrite app_nil_r|].
+  rewrite (Hg k0 v0 (or_introl eq_refl)).
+  assert (Hf : ~ In k0 (okeys acc)).
+  { unfold okeys in *. rewrite map_app in ND. cbn [map fst] in ND. apply NoDup_remove_2 in ND.
+    intro Hc. apply ND. rewrite in_app_iff. auto. }
+  rewrite (oset_fresh _ _ _ Hf). rewrite IH.
+  - now rewrite <- app_assoc.
+  - now rewrite <- app_assoc.
+  - intros k v Hin. apply Hg. now right.
+Qed.
+
+Lemma own_heads_id ents src :
+  NoDup (okeys src) -> (forall k v, In (k, v) src -> oget ents k = Some v) -> own_heads ents src = src.
+Proof. intros ND Hg. unfold own_heads. now rewrite (own_heads_fold_id ents src [] ND Hg). Qed.
+
 (* ---- find_heads ---- *)
 Lemma find_heads_In (m : omap) e :
   In e (find_heads m) <-> In e (oslice m) /\ ~ In (e_hash e) (all_nexts (oslice m)).
@@ -206,15 +244,6 @@ Section JoinUnbounded.
     mkLog (l_id l) j_ents j_heads j_nx (Z.max (l_time l) (max_time (oslice j_heads) 0))
           (l_cid l) (l_key l) (l_sort l) (l_deny l).
 
-  Lemma join_unfold size : size < 0 -> forallb (entry_ok l) (oslice newitems) = true ->
-    l_id l = l_id o -> join l o false size = (j_log, Ok tt).
-  Proof.
-    intros Hs Hok Hid. unfold join, join_reads.
-    assert (E0 : N.eqb (l_id l) (l_id o) = true) by (apply N.eqb_eq; exact Hid). rewrite E0. cbn [negb].
-    rewrite D, Hok. cbn [negb]. assert (E : size <? 0 = true) by (apply Z.ltb_lt; lia). rewrite E.
-    reflexivity.
-  Qed.
-
   Lemma join_error size : forallb (entry_ok l) (oslice newitems) = false ->
     join l o false size = (l, Err EJoin).
   Proof.
@@ -308,6 +337,23 @@ Section JoinUnbounded.
     - left. apply In_okeys in Hin. destruct Hin as [x Hx].
       assert (x = v) by (eapply (linv_agree U l o); eauto). now subst.
     - right. apply ni_spec. auto.
+  Qed.
+
+  (* the heads of an invariant source are entries of the merged log: looking them up changes nothing *)
+  Lemma own_heads_o : own_heads j_ents (l_heads o) = l_heads o.
+  Proof.
+    apply own_heads_id; [apply (li_heads_nodup _ _ Io)|].
+    intros k v H. apply In_oget; [apply (proj1 j_ents_spec)|]. apply in_j_ents_of_o. now apply heads_in_entries_o.
+  Qed.
+
+  Lemma join_unfold size : size < 0 -> forallb (entry_ok l) (oslice newitems) = true ->
+    l_id l = l_id o -> join l o false size = (j_log, Ok tt).
+  Proof.
+    intros Hs Hok Hid. unfold join, join_reads.
+    assert (E0 : N.eqb (l_id l) (l_id o) = true) by (apply N.eqb_eq; exact Hid). rewrite E0. cbn [negb].
+    rewrite D, Hok. cbn [negb]. assert (E : size <? 0 = true) by (apply Z.ltb_lt; lia). rewrite E.
+    change (fold_left (fun m e => oset m (e_hash e) e) (oslice newitems) (l_entries l)) with j_ents.
+    rewrite own_heads_o. reflexivity.
   Qed.
 
   Lemma named_o_named_j k : named_in (ents o) k -> named_in (oslice j_ents) k.
@@ -408,3 +454,8 @@ Section JoinUnbounded.
     - intros [H|H]; [auto|]. apply (proj2 j_ents_spec). now apply in_j_ents_of_o.
   Qed.
 End JoinUnbounded.
+
+(* after unfolding [join_reads] the merged entry map appears unfolded: fold it back so that the
+   own_heads lemmas can be rewritten with *)
+Ltac fold_j_ents l ni :=
+  change (fold_left (fun m e => oset m (e_hash e) e) (oslice ni) (l_entries l)) with (j_ents l ni) in *.
